@@ -375,7 +375,12 @@ def draw_mutation(draw, spec, cand, feats, opts, counter):
             elif c == 'db_column':
                 cur = S.column_of(f)
                 new = 'cc%d_%s' % (counter, fname)
-                mut['attrs']['db_column'] = new if cur != new else 'cd_' + fname
+                if f.get('db_column') and draw(st.booleans()):
+                    # back to the default column name (what the hint gives when a model
+                    # stops declaring db_column)
+                    mut['attrs']['db_column'] = None
+                else:
+                    mut['attrs']['db_column'] = new if cur != new else 'cd_' + fname
             elif c == 'max_length':
                 mut['attrs']['max_length'] = draw(st.sampled_from(
                     [x for x in (5, 20, 50, 100) if x != f['max_length']]))
